@@ -115,6 +115,48 @@ func search(seg segment.Segment, q vecQuery) ([]pair, error) {
 	return runSearch(vi, q)
 }
 
+// everyVectorPresent is the completeness oracle for the clustered class (>= 1000
+// vectors), whose unfiltered answers are approximate by design: a filtered search whose
+// only eligible document is d, with k = the number of d's vectors, must return exactly
+// d's vectors (the library keeps probing eligible clusters until k eligible hits are
+// found), whatever the metric. One handle, one search per document with vectors.
+func everyVectorPresent(seg segment.Segment, exp *ref.Content, field string) string {
+	vf := exp.Vecs[field]
+	if vf == nil || len(vf.Vecs) == 0 {
+		return ""
+	}
+	vs, ok := seg.(segment.VectorSegment)
+	if !ok {
+		return fmt.Sprintf("%T is not a VectorSegment", seg)
+	}
+	vi, err := vs.InterpretVectorIndex(field, true, nil)
+	if err != nil {
+		return fmt.Sprintf("InterpretVectorIndex: %v", err)
+	}
+	defer vi.Close()
+	first := map[uint32][]float32{}
+	count := map[uint32]int64{}
+	var docs []uint32
+	for _, v := range vf.Vecs {
+		if count[v.Doc] == 0 {
+			first[v.Doc] = v.Vec
+			docs = append(docs, v.Doc)
+		}
+		count[v.Doc]++
+	}
+	for _, d := range docs {
+		q := vecQuery{Field: field, Q: first[d], K: count[d], Filtered: true, ReqFilter: true, Eligible: []uint64{uint64(d)}}
+		got, err := runSearch(vi, q)
+		if err != nil {
+			return fmt.Sprintf("search restricted to document %d: %v", d, err)
+		}
+		if m := checkResult(exp, q, got, true); m != "" {
+			return fmt.Sprintf("search restricted to document %d (k = its %d vectors): %s", d, count[d], m)
+		}
+	}
+	return ""
+}
+
 // checkResult is the C14 oracle. exact=false checks soundness only.
 func checkResult(exp *ref.Content, q vecQuery, got []pair, exact bool) string {
 	vf := exp.Vecs[q.Field]
@@ -334,6 +376,11 @@ func vecMergeOracle(seg segment.Segment, exp *ref.Content) string {
 				if m := checkResult(exp, q, got, exact); m != "" {
 					return fmt.Sprintf("%s: %s", q, m)
 				}
+			}
+		}
+		if !exact {
+			if m := everyVectorPresent(seg, exp, field); m != "" {
+				return fmt.Sprintf("field %q: %s", field, m)
 			}
 		}
 	}
